@@ -52,6 +52,10 @@ func TestCheck(t *testing.T) {
 		c.Cfg.Heights = 1
 		c.Cfg.MaxRounds = 0
 		c.Cfg.MaxEvents = 40000
+		// in a third of the cases stakes move with the root height: the committee keeps its members but its stake-sorted order
+		// (hence every signer bitmap) differs between root heights, so locks and certificates from before a root-height reset
+		// have to be checked against the committee of THEIR root height
+		c.Cfg.ReorderCommittee = j%3 == 1
 		healAt := int64(600 + rng.Intn(12000))
 		byzQuiet := rng.Intn(2) == 0
 		stateTriggered := false
